@@ -34,6 +34,14 @@ CHECKS = {
    text="For every enumerated shape (row order of the plus paths, staircase reach per path, busy subset, sh / wf / mixed weights) the real inf_retis is explored path-completely with symbolic positive weights and z3 proves P[i,j]*perm(W) == W[i,j]*perm(W minus i,j) on the idle block, P == 0 on busy rows/columns and the code's allclose asserts as exact identities; fast_glynn_perm == Leibniz permanent for k <= 4 (6 thorough). Complete in the weight values, bounded in the number of ensembles.",
    note="Floats as exact reals; real numpy trusted; shapes N<=2 exhaustive + every 5th N=3 (quick), N<=3 exhaustive + every 3rd N=4 (thorough); random_prob excluded; the [0-] path is always in slot 0 (argued in props/C02.py).",
    design="5/C02"),
+ "C16": dict(level="other", technique="contract-based verification by path-complete symbolic execution of the REAL function objects on numpy object arrays of z3-backed reals (symnp); each symmetry / algebraic clause is a postcondition relating two runs, discharged per path by z3 (cvc5 for mixed int/real)",
+   text="Real kinetic_energy, reset_momentum, draw_maxwellian_velocities and the modify_velocities of TurtleMD/CP2K/LAMMPS/GROMACS(infretis_genvel) run on symbolic velocities, masses, beta with recording stubs for file I/O and the generator: KE = 1/2 sum m v^2 (both branches), zero total momentum, sigma^2*m*beta == 1 with exactly one rgen.normal(loc=0) draw from the engine's generator, positions/box/identities written are the objects read, kin_new is the KE of the written velocities, ekin/dek/config consistent. ASE by call-site data-flow + native replay; two ASE defects repaired (fix: 4c0711b).",
+   note="Per shape npart<=3, dim<=3 (complete in values). Gaussian law of rgen.normal assumed; reader/writer round trips are C19's subject; only the LAMMPS unit constant is checked.",
+   design="5/C16"),
+ "C20": dict(level="other", technique="contract-based verification by path-complete symbolic execution of the REAL function objects on numpy object arrays of z3-backed reals (symnp); each symmetry / algebraic clause is a postcondition relating two runs, discharged per path by z3 (cvc5 for mixed int/real)",
+   text="Two runs of the real calculate()/pbc_dist_coordinate related by the symmetry: rigid translation (Distance, Distancevel, Dihedral, Puckering), image shift by a symbolic integer number of boxes (pbc, Distance, Distancevel off ties), velocity reversal (incl. through the real EngineBase.calculate_order with vel_rev), 3- vs 9-component box, |pbc(d)| <= L/2, system arrays unmodified. One measure-zero known finding (half-box ties); one defect repaired (fix: 4bbae1c). Rotation invariance NOT decided (solvers unknown), periodic Dihedral/Puckering not covered.",
+   note="Floats as reals; sqrt/rint/arctan2 uninterpreted with their defining facts; image-shift clauses use box lengths in {1,2,4}.",
+   design="5/C20"),
 }
 NA = {
  "C01": "statistical convergence of an estimator over random histories; no pre/postcondition, invariant or lemma over function contracts expresses or decides it (DESIGN 5/C01). Its deterministic ingredients are decided under C02, C04, C09, C10.",
